@@ -110,6 +110,9 @@ func (c *syncMap) ExpireAll(ctx context.Context) {
 	startTS := ts(start)
 	cnt := 0
 
+	// Entries get an expiration time even in a cache with UnlimitedTTL, janitor has to scan them.
+	atomic.AddInt64(&c.t.expirationsSet, 1)
+
 	c.data.Range(func(key, value interface{}) bool {
 		cacheEntry := value.(*TraitEntry) //nolint // Panic on type assertion failure is fine here.
 
@@ -217,6 +220,10 @@ func (c *SyncMap) Restore(r io.Reader) (int, error) {
 			}
 
 			return n, err
+		}
+
+		if e.E != 0 {
+			atomic.AddInt64(&c.t.expirationsSet, 1)
 		}
 
 		c.data.Store(string(e.K), &e)
